@@ -280,9 +280,30 @@ impl TopologicalSortMachine
                                         frame.targets[*sub_index].clone()));
                                 }
 
+                                /*  The frame of that rule has already been taken out of the buffer.  If it is
+                                    waiting in the stack without having been expanded yet (it is a sibling of this
+                                    rule or of one of its ancestors), it is not an ancestor of this rule, so this
+                                    is no cycle: move it here, so that it gets finished before this rule does. */
+                                let mut pending_position = None;
+                                for (position, f) in stack.iter().enumerate()
+                                {
+                                    if f.index == *buffer_index && !f.visited
+                                    {
+                                        pending_position = Some(position);
+                                    }
+                                }
+
+                                if let Some(position) = pending_position
+                                {
+                                    let mut pending_frame = stack.remove(position);
+                                    pending_frame.sub_index = *sub_index;
+                                    indices_in_stack.remove(&pending_frame.index);
+                                    reverser.push(pending_frame);
+                                }
+
                                 /*  Look for a cycle by checking the stack for another instance of the node we're
                                     currently on */
-                                if indices_in_stack.contains(buffer_index)
+                                else if indices_in_stack.contains(buffer_index)
                                 {
                                     let mut target_cycle = vec![];
                                     for f in stack.iter()
